@@ -69,6 +69,12 @@ Definition cstep (v : framing) (s : cstate) (o : cop) : cstate * cobs_obs :=
     (* model level: the transcribed Python encoder's frame and what the reference decoder makes of it *)
     let f := py_encode_cobs m in
     (s, OPy (sdec v_cobs (removelast f)) f)
+  | CAPush d =>
+    let '(r, st', buf', cap') := apush (enc_any v) (cst s) (cbuf s) (ccap s) (Some d) in
+    (mkc st' buf' cap', OPush r st' buf' cap')
+  | CATerm =>
+    let '(r, st', buf', cap') := apush (enc_any v) (cst s) (cbuf s) (ccap s) None in
+    (mkc st' buf' cap', OPush r st' buf' cap')
   end.
 
 Fixpoint crun (v : framing) (s : cstate) (ops : list cop) : list cobs_obs :=
@@ -100,6 +106,11 @@ Definition cspec_step (f : framing) (s : sstate) (o : cop) : sstate * cobs_obs :
     if sraw s then (s, OAny)
     else (s, OMsg (length (sfin s)) (map (fun m => Some (expect_msg f m)) (sfin s)) 0)
   | CPy m _ => (s, OPy (Some m) [])
+  | CAPush d =>
+    if (length d =? 0) then (mks (sfin s ++ [scur s]) [] (sraw s), OPush (EInt 0) (mke 0 0 0) [] 0)
+    else if negb (admits f d) then (mks (sfin s) (scur s) true, OAny)
+    else (mks (sfin s) (scur s ++ d) (sraw s), OPush (EInt (length d)) (mke 0 0 0) [] 0)
+  | CATerm => (mks (sfin s ++ [scur s]) [] (sraw s), OPush (EInt 0) (mke 0 0 0) [] 0)
   end.
 
 Fixpoint csrun (f : framing) (s : sstate) (ops : list cop) : list cobs_obs :=
